@@ -286,7 +286,13 @@ def _ctor_str(x='', *a):
     if isinstance(x, (SymStr, DecStr)):
         return x
     if isinstance(x, SymInt):
-        return DecStr(x.t)
+        d = DecStr(x.t)
+        if getattr(core.ENG, 'str_tokens', False):
+            # audited harnesses only: the caller hands the result to a
+            # C-level str method ('.'.join, format) that needs a real str
+            from .sstr import tokenize
+            return tokenize(d)
+        return d
     if isinstance(x, SymBool):
         raise Unsupported('str(SymBool)')
     if isinstance(x, SymFloat):
@@ -512,6 +518,12 @@ class Loader:
             if type(v) is dict and v and not k.startswith('__') and \
                     all(isinstance(x, str) for x in v):
                 setattr(mod, k, SymKeyDict(v))
+            elif isinstance(v, type) and getattr(v, '__module__', '') == \
+                    name:
+                for ck, cv in list(vars(v).items()):
+                    if type(cv) is dict and cv and all(
+                            isinstance(x, str) for x in cv):
+                        setattr(v, ck, SymKeyDict(cv))
         for k, v in self.attrs.get(name, {}).items():
             setattr(mod, k, v)
         return mod
